@@ -56,6 +56,8 @@ class EngineBase:
         self.opaque_handlers = {}         # typ -> handler(engine, st, recv, name, args, kwargs)
         self.external_handlers = {}       # dotted external name -> handler(engine, st, args, kwargs)
         self.external_values = {}         # dotted external name -> value (e.g. math.pi)
+        self.opaque_spec = set()          # spec functions treated as uninterpreted in codec mode
+        self.spec_module_names = set()
         self.axioms = []                  # facts about global constants, assumed at the start of every run
         self.uf = {}
         self.cur_obl_prefix = ""
@@ -73,13 +75,16 @@ class EngineBase:
         return s
 
     def feasible(self, pc, extra=None) -> bool:
-        cs = list(pc) + ([extra] if extra is not None else [])
         if extra is not None:
             e = z3.simplify(extra)
             if z3.is_true(e):
                 return True if not pc else self.feasible(pc)
             if z3.is_false(e):
                 return False
+            from .slicing import relevant
+            cs = relevant(pc, [extra]) + [extra]
+        else:
+            cs = list(pc)
         key = tuple(c.get_id() for c in cs)
         if key in self._feas_cache:
             return self._feas_cache[key][0]
